@@ -268,14 +268,14 @@ func (c *Ctx) finish(verifDir string, seed int, start time.Time, only string, wr
 		ruleCounts[o.Rule]++
 	}
 	cov := map[string]interface{}{
-		"explanation":         "Static analysis of /repo's current source (AST, types, CFG, SSA, call graph); structural necessary conditions of the property, exact on the clause each covers. Rules applied — " + strings.Join(expl, " | "),
+		"explanation":         "Static analysis of /repo's current source: structural rules over the AST, types, SSA and call graph, and model evaluation — the checker's abstract interpreter runs the repository's source (never the compiled program) on bounded abstract inputs with the library boundary modelled, and compares the resulting values with the specification. Necessary conditions of the property, exact on the clause and the bounded inputs each rule covers. Rules applied — " + strings.Join(expl, " | "),
 		"obligations":         len(c.obs),
 		"discharged":          disch,
 		"known_findings":      known,
 		"undecided":           undec,
 		"evaluations":         c.evals,
 		"distinct_nontrivial": len(c.nontriv),
-		"rule":                "one obligation per (rule, construct) found by resolving API anchors and walking the type-checked program; an obligation is non-trivial when the rule found a concrete construct to decide (vacuity floors enforce a minimum per rule); evaluations additionally count enumerated orderings / unrollings",
+		"rule":                "one obligation per (rule, construct) found by resolving API anchors and walking the type-checked program; an obligation is non-trivial when the rule found a concrete construct to decide (vacuity floors enforce a minimum per rule); evaluations additionally count interpreter runs (enumerated orderings, oracle answer combinations, model inputs)",
 		"samples":             samples,
 		"exhaustive":          c.exhaust,
 		"obligations_by_rule": ruleCounts,
@@ -284,7 +284,7 @@ func (c *Ctx) finish(verifDir string, seed int, start time.Time, only string, wr
 		"excluded_packages":   excludedPkgs,
 		"notes":               c.notes,
 		"checker_cmd":         fmt.Sprintf("bin/geomcheck check -prop %s -tier %s", c.Prop, c.Tier),
-		"trusted_base":        []string{"go/types, go/ssa, go/cfg (x/tools v0.29.0)", "the rule tables in checker/" + strings.ToLower(c.Prop) + ".go"},
+		"trusted_base":        []string{"go/types, go/ssa (x/tools v0.29.0)", "the checker's interpreter of Go source (checker/orderdom.go, orderslice.go, ordersym.go) and its models of the standard library and of the dependencies", "the specifications written in checker/" + strings.ToLower(c.Prop) + "*.go"},
 	}
 	for k, v := range c.extra {
 		cov[k] = v
